@@ -15,6 +15,8 @@ RULE = ("block 'json': arrays of 0-3 dims, int/float data with NaN, int/float/st
         "loops. class = (block, format, step kinds, variable kinds, ndims) ; trivial = empty dataset")
 ANCHORS = ["dimarraycls.to_jsondict", "dimarraycls.from_jsondict", "nc.write", "nc.read", "nc.maybe_encode_values", "nc._maybe_open_file",
            "dataset.write_nc", "dimarraycls.write_nc"]
+# entry points the workload calls itself; the other anchors are helpers behind them (counted as evidence only)
+ANCHORS_REQUIRED = ["dimarraycls.to_jsondict", "dimarraycls.from_jsondict", "dataset.write_nc", "dimarraycls.write_nc"]
 FLOORS = {"quick": {"evaluations": 700, "distinct": 300, "outcome:json-roundtrips": 250, "outcome:nc-files": 250, "outcome:nc-reads": 1000,
                     "outcome:nc-append-steps": 200},
           "thorough": {"evaluations": 15000, "distinct": 1500}}
